@@ -3,6 +3,7 @@ from __future__ import annotations
 import ast
 import builtins
 import collections
+import copy
 import dataclasses
 import functools
 import io
@@ -1174,6 +1175,13 @@ class _NameWildcardTransformer(ast.NodeTransformer):
         elif node is None or node is True or node is False:
             return node
         else:
+            # Visiting assigns to the fields of a node, and the node may be part of a tree that is
+            # in use elsewhere.
+            node = copy.copy(node)
+            for field, value in ast.iter_fields(node):
+                if isinstance(value, list):
+                    setattr(node, field, list(value))
+
             node = super().visit(node)
 
         # Delete attributes potentially present in ignore.
